@@ -255,7 +255,21 @@ def pyval(v):
 
 # ---------------------------------------------------------------- obligations
 
+class ReplayAbort(SxControl):
+    """the recorded model does not satisfy an assumption of the harness"""
+
+
+def _rp():
+    e = Engine.cur
+    return e if e is not None and getattr(e, 'replay', False) else None
+
+
 def assume(c):
+    r = _rp()
+    if r is not None:
+        if not _bool(c):
+            raise ReplayAbort('assumption not satisfied by the model')
+        return
     z = tobool(c)
     if _isinstance(z, _bool):
         if not z:
@@ -274,6 +288,12 @@ def assume(c):
 
 
 def check(c, msg='', **extra):
+    r = _rp()
+    if r is not None:
+        r.checks += 1
+        if not _bool(c):
+            r.failures.append(msg)
+        return
     e = E()
     e.checks += 1
     e.reached.add(msg)
@@ -304,9 +324,53 @@ def reach(label):
     E().reached.add('reach:' + label)
 
 
+class ReplayEngine:
+    """concrete re-execution of a harness: the sx API hands out the values of a recorded model"""
+    replay = True
+
+    def __init__(self, model):
+        self.model = dict(model)
+        self.inputs = {}
+        self.tags = {}
+        self.ticks = 0
+        self.checks = 0
+        self.failures = []
+        self.reached = set()
+        self.fresh = itertools.count()
+        self.step_limit = 10 ** 12
+        self.shift_mode = 'split'
+        self.index_cap = 64
+        self.notes = []
+
+    def add(self, *a):
+        pass
+
+    def choose(self, n, label='choice'):
+        key = '%s#%d' % (label, _len(self.inputs))
+        self.inputs[key] = True
+        v = self.model.get(key)
+        if v is None:
+            # tolerate renumbering: same label, any position
+            for k in self.model:
+                if k.split('#')[0] == label and k not in self.inputs:
+                    v = self.model[k]
+                    break
+        v = _int(v or 0)
+        return max(0, min(n - 1, v))
+
+    def newvar(self, *a):
+        raise ReplayAbort('harness uses solver terms directly: no generic replay')
+
+    def sat(self, *a):
+        raise ReplayAbort('harness queries the solver directly: no generic replay')
+
+    decide = sat
+    concretize = sat
+
+
 def tick(n=1):
     e = Engine.cur
-    if e is None:
+    if e is None or getattr(e, 'replay', False):
         return
     e.ticks += n
     if e.ticks > e.step_limit:
@@ -1039,7 +1103,17 @@ def ite(c, a, b):
     return SxInt.wrap(z3.If(z, _toint(ka, xa), _toint(kb, xb)))
 
 
+def _model_num(v, default=0):
+    if _isinstance(v, dict):
+        return v.get('float', default)
+    return default if v is None else v
+
+
 def symint(name, lo=None, hi=None):
+    r = _rp()
+    if r is not None:
+        r.inputs[name] = True
+        return _int(_model_num(r.model.get(name), lo if _isinstance(lo, _int) else 0))
     e = E()
     z = e.newvar(name, z3.IntSort())
     e.inputs[name] = z
@@ -1054,6 +1128,10 @@ def symint(name, lo=None, hi=None):
 
 
 def symbv(name, w):
+    r = _rp()
+    if r is not None:
+        r.inputs[name] = True
+        return _int(_model_num(r.model.get(name), 0))
     e = E()
     z = e.newvar(name, z3.BitVecSort(w))
     e.inputs[name] = z
@@ -1061,6 +1139,10 @@ def symbv(name, w):
 
 
 def symbool(name):
+    r = _rp()
+    if r is not None:
+        r.inputs[name] = True
+        return _bool(r.model.get(name, False))
     e = E()
     z = e.newvar(name, z3.BoolSort())
     e.inputs[name] = z
@@ -1068,6 +1150,13 @@ def symbool(name):
 
 
 def symreal(name, lo=None, hi=None):
+    r = _rp()
+    if r is not None:
+        r.inputs[name] = True
+        v = r.model.get(name)
+        if v is None:
+            v = lo if _isinstance(lo, (_int, _float)) else 0.0
+        return _float(_model_num(v, 0.0))
     e = E()
     z = e.newvar(name, z3.RealSort())
     e.inputs[name] = z
@@ -1079,7 +1168,7 @@ def symreal(name, lo=None, hi=None):
 
 
 def declare_input(name, term):
-    E().inputs[name] = term
+    E().inputs[name] = term if _rp() is None else True
 
 
 def choose(n, label='choice'):
@@ -1106,6 +1195,8 @@ def int_term(x):
 
 def prove(c):
     """True iff c holds on the current path (no fork, no obligation)"""
+    if _rp() is not None:
+        return _bool(c)
     z = tobool(c)
     if _isinstance(z, _bool):
         return z
@@ -1117,6 +1208,8 @@ def prove(c):
 
 
 def possible(c):
+    if _rp() is not None:
+        return _bool(c)
     z = tobool(c)
     if _isinstance(z, _bool):
         return z
